@@ -25,7 +25,7 @@ PROPS = {
     "C14": ("w2_lifecycle", "exploration", 3000, 300000, "4/C14"),
     "C15": ("w2_lifecycle", "fault_enumeration", 2500, 250000, "4/C15"),
     "C33": ("w2_lifecycle", "fault_enumeration", 2500, 250000, "4/C33"),
-    "C16": ("w3_history", "exploration", 1000, 150000, "4/C16"),
+    "C16": ("w3_history", "exploration", 1000, 40000, "4/C16"),
     "C17": ("w4_repo", "exploration", 2000, 200000, "4/C17"),
     "C18": ("w4_repo", "fault_enumeration", 2000, 200000, "4/C18"),
     "C27": ("w4_repo", "exploration", 2000, 200000, "4/C27"),
